@@ -25,6 +25,7 @@ def paired(rep, thorough):
         base = None
         with_ov = r0.random() < 0.35
         strip = r0.random() < 0.4
+        nodecay = r0.random() < 0.4
         for k, ps in enumerate(sets):
             cfg = NG.gen_model(random.Random(seed), ndates=4, polset=ps, size=size, opts={"polseed": k, "overrides": with_ov})
             if strip and k == 1:
@@ -33,6 +34,10 @@ def paired(rep, thorough):
                 for nd in cfg["nodes"]:
                     if nd["type_"] in ("WWTW", "FWTW"):
                         nd.pop("process_parameters", None)
+            if nodecay and k == 1:
+                # "different decay parameters": this configuration has no pollutant decay in its stores at all
+                for nd in cfg["nodes"]:
+                    nd.pop("decays", None)
             mon, model, err, out = MN.run_cfg(cfg, "exact", pids=())
             vols = [(rec["flows"], rec["stores"]) for rec in mon.records]
             if err:
